@@ -425,10 +425,14 @@ def rule_keys(ctx):
               "rounds: uncrossed and complex derived factors", "after the preamble the uncrossed and complex-window derived factors are filled up to the full length",
               "fill_in_nonpreamble_uncrossed_derived returns %s" % Ff.returns())
     cr = ctx.fn("random:RandomGen.__combine_round")
-    src = [ast.unparse(s) for s in statements(cr.node)]
-    ctx.check("for key in round:\n    new_run[key] = run[key] + round[key]" in src and "if len(run) == 0:\n    return round\nelse:\n    new_run = run.copy()\n    for key in round:\n        new_run[key] = run[key] + round[key]\n    return new_run" in src,
-              R, cr, "concatenate by the round's keys", "an empty run is replaced, otherwise every key of the round is appended to the run's list",
-              "__combine_round changed")
+    Fc = Facts(cr)
+    cases = Fc.cases()
+    loops_ = [x for x in Fc.stmts if isinstance(x, ast.For)]
+    ok = ((("empty(run)",), "round") in cases) and any(c[0] == ("nonempty(run)",) and c[1].startswith("run.copy()") or c[0] == ("nonempty(run)",) for c in cases) and \
+        len(loops_) == 1 and ast.unparse(loops_[0].iter) == "round" and Fc.conds(loops_[0]) == ["nonempty(run)"] and \
+        [ast.unparse(b) for b in loops_[0].body] == ["new_run[%s] = run[%s] + round[%s]" % ((ast.unparse(loops_[0].target),) * 3)]
+    ctx.check(ok, R, cr, "concatenate by the round's keys", "an empty run is replaced, otherwise every key of the round is appended to the run's list",
+              "__combine_round changed: cases %s" % cases)
     fd = ctx.fn("random:UCSolutionEnumerator._fill_in_derived")
     Fd = Facts(fd)
     ctx.check(Fd.iters()[:1] == ["sorted_factors"] and "run[df] = trials" in [ast.unparse(s) for s in statements(fd.node)], R, fd, "derived filled per factor",
